@@ -44,6 +44,11 @@ def analyse_mask(obs: Obs, prog):
         r = ev.eval_fn(MT.methods[acc], MT.module, MT)
         obs.add({"C01", "C14"}, "TRACE-ACCESSOR", f"MaskTrace.{acc}", r.ret == ("attr", SELF, fld), derived=r.ret, expected=f"self.{fld}", where=W(MT, acc))
     r = ev.eval_fn(MT.methods["get_inner_trace"], MT.module, MT)
+    # the parent's score is check * inner score and its choices are masked by check, but the sub-trace handed out below the mask is the UNMASKED inner one: with a
+    # false flag its choices / score are not the parent's sub-map / the call's contribution (vmap(mask(f)) with flags [T, F, T]: sub-trace scores sum to -5.39,
+    # parent score -2.01)
+    obs.add({"C34"}, "SUBTRACE", "MaskTrace.get_inner_trace/flag", mentions(r.ret, ("attr", SELF, "check")), construct="sub-trace below a mask",
+            derived="self.inner.get_inner_trace(address) - the flag is not applied", expected="the forwarded sub-trace gated by self.check (or its score / choices masked)", where=W(MT, "get_inner_trace"))
     obs.add({"C34"}, "SUBTRACE", "MaskTrace.get_inner_trace", r.ret == ("call", ("attr", ("attr", SELF, "inner"), "get_inner_trace"), (P("address"),), ()), derived=r.ret, expected="self.inner.get_inner_trace(address)", where=W(MT, "get_inner_trace"))
     # simulate
     r = ev.eval_fn(M.methods["simulate"], M.module, M)
